@@ -36,6 +36,8 @@ def run(chk):
     e10.run_U(chk, ("yastn.tensor.linalg", "yastn.tensor._merging"), floor1=5, floor2=1)
 
 MUTANTS = [
+    ('eigh maps legs with the inverse permutation', 'yastn/tensor/linalg.py', "    out_hl = tuple(a.trans[ax] for ax in out_hl)\n    out_hr = tuple(a.trans[ax] for ax in out_hr)\n    #\n    if not all(x == 0 for x in a.struct.n):\n        raise YastnError('eigh requires tensor charge to be zero.')", "    out_hl = tuple(a.trans.index(ax) for ax in out_hl)\n    out_hr = tuple(a.trans.index(ax) for ax in out_hr)\n    #\n    if not all(x == 0 for x in a.struct.n):\n        raise YastnError('eigh requires tensor charge to be zero.')", 'L1'),
+    ('moveaxis normalises with the native leg count', 'yastn/tensor/_single.py', '    ldst = tuple(xx + a.ndim if xx < 0 else xx for xx in ldst)', '    ldst = tuple(xx + a.ndim_n if xx < 0 else xx for xx in ldst)', 'L1'),
     ("qr: R gets meta-fusion of the left group", "yastn/tensor/linalg.py", "    Rmfs = ((1,),) + tuple(a.mfs[ii] for ii in out_mr)", "    Rmfs = ((1,),) + tuple(a.mfs[ii] for ii in out_ml)", "L3"),
     ("Vs with +sU", "yastn/tensor/linalg.py", "    Vstruct = _struct(s=(-sU, struct.s[1]), n=Vn, diag=False, t=Vt, D=VD, size=sum(VDp))", "    Vstruct = _struct(s=(sU, struct.s[1]), n=Vn, diag=False, t=Vt, D=VD, size=sum(VDp))", "S4"),
     ("swap Uaxis/Vaxis", "yastn/tensor/linalg.py", "    U = U.moveaxis(source=-1, destination=Uaxis)\n    V = V.moveaxis(source=0, destination=Vaxis)\n    return U, S, V\n\n\ndef _find_gaps",
